@@ -618,7 +618,7 @@ func main() {
 	if !r.Quick() {
 		kinds = []string{"ec256", "rsa2048restr"}
 	}
-	r.Rule("a state is a request history on ONE server instance (real handler, all four responders, one journaling store); a transition is one real ServeHTTP call. Honest principals run DI, TO0, TO1, TO2 (with an owner module) in order; half-open sessions of every protocol exist besides them. Before EVERY honest request the explorer may inject one adversarial request from the menu {16 message types incl. response types and unknown types} x {replay of the genuine request of this run, genuine request of another device (thorough), crafted well-formed bodies such as Done with the public ProveDevice nonce, plaintext 66/68, SetHMAC, error messages naming each protocol / unknown previous types} x {no token, this session's, another session's of the same protocol, another protocol's, a finished session's, five damaged forms}. Deviation bound 1 is complete (thorough: bound 2 for the injection points of DI/TO0/TO1). Invariants on every history: every AddVoucher / SetRVBlob / ReplaceVoucher / module start has a witness (the prerequisite messages accepted in order under its token, the last being the exchange that caused it); requests with no / foreign-protocol / finished / damaged token are answered with an error, cause no effect and do not disturb the honest runs; after a final message, an error answer or a client error message the token is never accepted again and its session state is gone. states = histories, transitions = requests served. Additional layer: the AUTHENTICATED TO2 client itself (real client, real tunnel) deviates from the order: skips 66, skips the whole service info phase, skips both, or sends 70 / 68 / 66 / 64 once more after Done2, with and without credential reuse; no module invocation or voucher replacement may happen without its prerequisite messages, nothing is accepted after the final message. Restart layer: the authenticated client abandons a run before 66 / the first or second 68 / 70 (nothing more is sent, the session stays open) and starts over through the SAME HTTP transport, so that its HelloDevice presents the live token, then skips 66, the service info phase, both, or nothing; over the memory store and over the real SQLite store: steps of the abandoned run never count for the new one (no voucher replacement, the skipping run fails), an honest second run is onboarded. Token layer: on the real SQLite token service the last message of DI and of TO0 is sent with its own session id but a MAC that is bit-flipped, zeroed, borrowed from another live session, shortened, extended or absent: refused, no voucher / blob stored. Hang-up layer: the client's request context is cancelled while the server processes the final message of DI / TO0 (after the effect): no session row remains and the final message sent again under the same token is refused.")
+	r.Rule("a state is a request history on ONE server instance (real handler, all four responders, one journaling store); a transition is one real ServeHTTP call. Honest principals run DI, TO0, TO1, TO2 (with an owner module) in order; half-open sessions of every protocol exist besides them. Before EVERY honest request the explorer may inject one adversarial request from the menu {16 message types incl. response types and unknown types} x {replay of the genuine request of this run, genuine request of another device (thorough), crafted well-formed bodies such as Done with the public ProveDevice nonce, plaintext 66/68, SetHMAC, error messages naming each protocol / unknown previous types} x {no token, this session's, another session's of the same protocol, another protocol's, a finished session's, five damaged forms}. Deviation bound 1 is complete (thorough: bound 2 for the injection points of DI/TO0/TO1). Invariants on every history: every AddVoucher / SetRVBlob / ReplaceVoucher / module start has a witness (the prerequisite messages accepted in order under its token, the last being the exchange that caused it); requests with no / foreign-protocol / finished / damaged token are answered with an error, cause no effect and do not disturb the honest runs; after a final message, an error answer or a client error message the token is never accepted again and its session state is gone. states = histories, transitions = requests served. Additional layer: the AUTHENTICATED TO2 client itself (real client, real tunnel) deviates from the order: skips 66, skips the whole service info phase, skips both, or sends 70 / 68 / 66 / 64 once more after Done2, with and without credential reuse; no module invocation or voucher replacement may happen without its prerequisite messages, nothing is accepted after the final message. Restart layer: the authenticated client abandons a run before 66 / the first or second 68 / 70 (nothing more is sent, the session stays open) and starts over through the SAME HTTP transport, so that its HelloDevice presents the live token, then skips 66, the service info phase, both, or nothing; over the memory store and over the real SQLite store: steps of the abandoned run never count for the new one (no voucher replacement, the skipping run fails), an honest second run is onboarded. Token layer: on the real SQLite token service the last message of DI and of TO0 is sent with its own session id but a MAC that is bit-flipped, zeroed, borrowed from another live session, shortened, extended or absent: refused, no voucher / blob stored. Hang-up layer: the client's request context is cancelled while the server processes the final message of DI / TO0 (after the effect): no session row remains and the final message sent again under the same token is refused. Without-hello layer (memory and SQLite store): OwnerSign (22) and ProveToRV (32) produced by the REAL clients and signed by the genuine owner / device, naming the all-zero nonce, the nonce of an earlier finished session or all-0xff, are sent under {no token, a token freshly issued for TO0 / TO1, live DI / TO1 / TO2 session tokens, the tokens of a finished TO0 / TO1 session and of an errored TO0 session}: never answered with 23 / 33, no blob stored; control: with a Hello behind them both protocols complete.")
 	for _, kn := range kinds {
 		k := keys.KindByName(kn)
 		var mu sync.Mutex
@@ -651,6 +651,9 @@ func main() {
 	}
 	sqliteTokens(keys.KindByName(kinds[0]))
 	hangUps(keys.KindByName(kinds[0]))
+	for _, kn := range kinds {
+		withoutHello(keys.KindByName(kn))
+	}
 	r.Traces.Add(r.States.Load())
 	r.Assume("the history exploration uses the memory store with effect journal; the restart layer also runs on the real SQLite store (the store interface itself is explored by C18); the adversary's knowledge is what is public on the wire plus genuine traffic of another device")
 	_ = cbor.Marshal
